@@ -3,6 +3,7 @@ package scen
 import (
 	"cosmossdk.io/math"
 	sdk "github.com/cosmos/cosmos-sdk/types"
+	banktypes "github.com/cosmos/cosmos-sdk/x/bank/types"
 	ammtypes "github.com/elys-network/elys/x/amm/types"
 
 	"verifharness/chain"
@@ -82,6 +83,43 @@ func init() {
 			w.Step(5, txs...)
 			c.Ev("directed_batches")
 			w.Step(5) // idle block: nothing may move
+		}
+		// opposite-direction pairs of which one side can no longer be honoured at the end of the
+		// block although it was accepted: its sender (a poorly funded account) moves the input away
+		// in a later transaction of the same block. Both queue orders, all three pools.
+		poor := []*chain.Actor{w.AddActor("poor0"), w.AddActor("poor1")}
+		fund := S / 50
+		w.Step(5, w.Tx(u[12], &banktypes.MsgSend{FromAddress: u[12].S(), ToAddress: poor[0].S(), Amount: sdk.NewCoins(chain.Coin("uusdc", fund*8), chain.Coin("uelys", fund*8), chain.Coin("uatom", fund*8)).Sort()}),
+			w.Tx(u[13], &banktypes.MsgSend{FromAddress: u[13].S(), ToAddress: poor[1].S(), Amount: sdk.NewCoins(chain.Coin("uusdc", fund*8), chain.Coin("uelys", fund*8), chain.Coin("uatom", fund*8)).Sort()}))
+		w.RefreshSeqs()
+		type pair struct {
+			pool   uint64
+			da, db string
+		}
+		for pi, pr := range []pair{{2, "uelys", "uusdc"}, {2, "uusdc", "uelys"}, {3, "uatom", "uusdc"}, {3, "uusdc", "uatom"}, {1, "uatom", "uusdc"}, {1, "uusdc", "uatom"}} {
+			if w.Dead {
+				break
+			}
+			p := poor[pi%2]
+			bal := w.App.BankKeeper.GetBalance(w.ReadCtx(), p.Addr, pr.db).Amount
+			if !bal.IsPositive() {
+				continue
+			}
+			rich := u[2+pi%4]
+			amtA := S / 400
+			// rich: da -> db ; poor: db -> da with its whole db balance, then sends db away
+			t1 := w.Tx(rich, in1(rich, pr.pool, pr.da, amtA, pr.db, 1, ""))
+			t2 := w.Tx(p, in1(p, pr.pool, pr.db, bal.Int64(), pr.da, 1, ""))
+			t3 := w.Tx(p, &banktypes.MsgSend{FromAddress: p.S(), ToAddress: u[13].S(), Amount: sdk.NewCoins(chain.CoinI(pr.db, bal))})
+			txs := []*chain.TxRecord{t1, t2, t3}
+			if pi%2 == 1 {
+				txs = []*chain.TxRecord{t2, t3, t1}
+			}
+			w.Step(5, txs...)
+			c.Ev("pair_with_one_side_unhonourable")
+			w.Step(5)
+			// refill the poor account for the next round
+			w.Step(5, w.Tx(u[13], &banktypes.MsgSend{FromAddress: u[13].S(), ToAddress: p.S(), Amount: sdk.NewCoins(chain.CoinI(pr.db, bal))}))
 		}
 		g := v.Gen(w, c, MixSwap)
 		g.MaxTx = 10
